@@ -405,7 +405,7 @@ func astNodeToSchemaRule(node schema.RuleASTNode) Rule {
 	return Rule{
 		TokenType:   RuleTokenType(node.TokenType),
 		ScalarValue: node.Value,
-		Note:        node.Comment,
+		Note:        Note(node.Comment),
 		Children:    children,
 	}
 }
